@@ -13,6 +13,16 @@ def run(ctx):
                 "at a chosen element of a chosen call in a chosen worker); lifecycle clause enforced: begin at most once and before any item, "
                 "items only between completed begin and end, at most quota chunks, end once, until_all_ready only when every worker in the "
                 "pool has completed begin, no worker (replaced ones included) running after the context is left")
+    from adapters import poolsim
+    try:
+        hconf = poolsim.Harness()
+        crnd = random.Random(ctx.seed * 7919 + 56)
+        sc0 = poolconf.scen_for("C2", 1, 1, 0, JUDGE)
+        sc0.update(pool="factory", quota=1)
+        hconf.shared = hconf.learn(sc0, crnd)
+    except Exception:
+        hconf, crnd = None, random.Random(1)
+    poolconf.factory_conformance(ctx, hconf, crnd, quick, JUDGE)
     poolconf.factory_design_legs(ctx, quick, ['Lifecycle'], 'leak', ['Lifecycle'])
     rnd = random.Random(ctx.seed * 7919 + 104)
     scens = C03.scenarios(rnd, quick)
